@@ -3,7 +3,7 @@
 import json, subprocess, sys, xml.etree.ElementTree as ET, os, tempfile
 b = json.load(open("/root/.vp/BASELINE.json"))
 out = tempfile.mktemp(suffix=".xml", dir="/tmp")
-cmd = b["cmd"].replace("<file>", out)
+cmd = b["cmd"].replace("<file>", out).replace("cd /repo", "cd " + (sys.argv[1] if len(sys.argv) > 1 else "/repo"))
 env = dict(os.environ); env.pop("PYTHONPATH", None); env.pop("HOLOPY_VERIF", None)
 subprocess.run(cmd, shell=True, stdout=subprocess.DEVNULL, stderr=subprocess.DEVNULL, env=env)
 passed = set()
